@@ -62,6 +62,8 @@ func shapeSession(r *ev.Run, rng *gen.Rand, sidx int) {
 		var st proxyrig.MyStep
 		if i > 0 && rng.Intn(7) == 0 {
 			st = boundaryInsert(g, rng)
+		} else if i > 0 && rng.Intn(8) == 0 {
+			st = signedParamUpdate(g, rng)
 		} else {
 			st = g.Next()
 		}
@@ -120,6 +122,37 @@ func boundaryInsert(g *proxyrig.MySessGen, rng *gen.Rand) proxyrig.MyStep {
 	return out
 }
 
+// signedParamUpdate binds, next to a parameter of a configured column (which Acra rewrites, re-encoding the whole parameter
+// block), integer parameters of the unconfigured id column whose value depends on the signedness flag: a negative BIGINT
+// and an unsigned BIGINT above 2^63.
+func signedParamUpdate(g *proxyrig.MySessGen, rng *gen.Rand) proxyrig.MyStep {
+	t := g.Tables[rng.Intn(len(g.Tables))]
+	var cands []proxyrig.ColSpec
+	for _, c := range t.Cols {
+		if c.Configured() && c.Kind != "token" && c.AppType == fakepg.Bytea {
+			cands = append(cands, c)
+		}
+	}
+	if len(cands) == 0 {
+		return g.Update()
+	}
+	c := cands[rng.Intn(len(cands))]
+	v := proxyrig.GenColVal(rng, c)
+	st := proxyrig.MyStep{Kind: "update", Table: t.Name, Proto: "prepared-oneshot", ArgCols: []string{c.Name, "id", "id"}}
+	if !v.Null {
+		st.Writes = []proxyrig.Written{{Table: t.Name, Col: c.Name, V: v}}
+	}
+	st.SQL = fmt.Sprintf("update %s set %s = ? where id = ? or id = ?", t.Name, c.Name)
+	if rng.Intn(2) == 0 {
+		st.Tag = "negative-integer-parameter"
+		st.Args = []interface{}{proxyrig.MyArg(v), int64(-1 - rng.Intn(1000)), int64(1 + rng.Intn(5))}
+	} else {
+		st.Tag = "unsigned-bigint-parameter-above-2^63"
+		st.Args = []interface{}{proxyrig.MyArg(v), uint64(1<<63) + uint64(rng.Intn(1000)), int64(1 + rng.Intn(5))}
+	}
+	return st
+}
+
 func shapeStep(r *ev.Run, w *proxyrig.MyWorld, c *proxyrig.MyClient, st proxyrig.MyStep, history []string, sidx int) bool {
 	r.Case()
 	t := w.Table(st.Table)
@@ -149,11 +182,6 @@ func shapeStep(r *ev.Run, w *proxyrig.MyWorld, c *proxyrig.MyClient, st proxyrig
 			r.Violation(sig("connection broke", "-"), detail(map[string]interface{}{"err": res.Err.Error()}))
 			return false
 		}
-	}
-	if len(w.Store.Unsupported()) > 0 {
-		r.Count("mysql_rig_inconclusive_statement_not_evaluable", 1)
-		r.SampleN("mysql-unsupported", 3, map[string]interface{}{"forwarded": w.Store.Unsupported()[0], "client_sql": clip(st.SQL, 200)})
-		return false
 	}
 	sentBytes, recvBytes := c.Since(mark)
 	cSent, rest, err := fakemysql.SplitFrames(sentBytes)
@@ -378,6 +406,12 @@ func shapeStep(r *ev.Run, w *proxyrig.MyWorld, c *proxyrig.MyClient, st proxyrig
 		}
 	}
 	_ = inDefs
+	if len(w.Store.Unsupported()) > 0 {
+		// the packets were compared (that needs no evaluation); the database state is no longer meaningful, the session ends
+		r.Count("mysql_rig_inconclusive_statement_not_evaluable", 1)
+		r.SampleN("mysql-unsupported", 3, map[string]interface{}{"forwarded": w.Store.Unsupported()[0], "client_sql": clip(st.SQL, 200)})
+		return false
+	}
 	r.SampleN("mysql-shape:"+st.Kind+st.Proto, 1, map[string]interface{}{"client_sql": clip(st.SQL, 300), "proto": st.Proto, "client_packets": len(cSent), "server_packets": len(dbSent)})
 	return true
 }
